@@ -2,13 +2,357 @@
 #include "core.h"
 using sim::R;
 
-void orc_c13_delivery(Delivery &d) { (void)d; }
+static bool has(const std::vector<int> &v, int x) { return std::find(v.begin(), v.end(), x) != v.end(); }
+static bool in_flush_phase(const Delivery &d) { return d.looping_known && !d.ctx_looping; }
+
+// priority of a delivered event as the module configured it: 0 low, 1 normal, 2 high
+static int evt_prio(Slot &s, const EvtObs &e) {
+    if (e.type == M_SRC_TYPE_FD) return 2;
+    unsigned fl = 0;
+    bool found = false;
+    if (e.type == M_SRC_TYPE_PS) {
+        if (!e.ud) return 1;   // direct tell / broadcast / unmatched system message
+        for (auto &h : s.sub_history) if (h.second == e.ud) { fl = h.flags; found = true; }
+    } else {
+        for (auto &x : s.srcs) if (x.type == e.type && x.ud == e.ud) { fl = x.flags; found = true; }
+        for (auto &x : s.recent_srcs) if (x.type == e.type && x.ud == e.ud) { fl = x.flags; found = true; }
+    }
+    if (!found) return -1;
+    if (fl & M_SRC_PRIO_HIGH) return 2;
+    if (fl & M_SRC_PRIO_LOW) return 0;
+    return 1;
+}
+
+// =================================================================== C13
+void orc_c13_delivery(Delivery &d) {
+    if (d.in_unstash || d.evts.empty()) return;
+    Slot &s = W->slots[d.slot];
+    oracle_eval("C13.invocation-trigger");
+    size_t n = d.evts.size();
+    int last = evt_prio(s, d.evts.back());
+    if (last < 0) return;   // cannot classify (source gone): nothing to say
+    bool flush = in_flush_phase(d) || s.pills_pending > 0;   // final flush / pill hand over whatever is accumulated
+    size_t k = s.batch_size;
+    bool timed = s.batch_timeout != 0;
+    // settings may have been changed by the previous invocation or the driver since the events accumulated: use the laxest reading
+    if (s.batch_changed_gseq > s.last_delivery_gseq) { s.last_delivery_gseq = d.gseq; return; }
+    s.last_delivery_gseq = d.gseq;
+    if (last == 2 || flush) return;
+    if (last == 0) {
+        if (!timed) VIOL("C13", "C13:low-priority-triggered", "handler of module slot %d invoked by a low-priority event (%zu events, no batch timeout configured)", d.slot, n);
+        return;
+    }
+    // last is normal priority
+    if (k == 0 && !timed) {
+        // no batching: every normal event is delivered at once, only low-priority ones may have accumulated before it
+        for (size_t i = 0; i + 1 < n; i++) {
+            int p = evt_prio(s, d.evts[i]);
+            if (p > 0) VIOL("C13", "C13:batched-without-batching", "module slot %d has no batch size or timeout configured but received %zu events at once, event %zu of them not low-priority", d.slot, n, i);
+        }
+        return;
+    }
+    if (k > 0 && n < k && !timed)
+        VIOL("C13", "C13:flushed-before-batch-size", "handler of module slot %d invoked with %zu events by a normal-priority event although the batch size is %zu and no timeout is configured", d.slot, n, k);
+}
+
 void orc_c13_quiescent() {}
-void orc_c15_api(const ApiRec &r, const Frame &f, const std::string &snap0, const std::string &snap1) { (void)r; (void)f; (void)snap0; (void)snap1; }
-void orc_c16_delivery(Delivery &d) { (void)d; }
+
+void orc_c13_loop_end(LoopRun &lr) {
+    if (lr.poll_failure) return;
+    oracle_eval("C13.nothing-lost");
+    for (auto &sd : W->sends) {
+        if (sd.rc != 0 || sd.kind == 3 || sd.in_flush || sd.gseq > lr.end_gseq) continue;
+        for (int e : sd.eligible) {
+            if (sd.delivered.count(e) || sd.dead.count(e) || sd.unknown.count(e) || sd.oneshot_matched.count(e) || has(sd.overflow, e)) continue;
+            Slot &r = W->slots[e];
+            if (r.st != ST_RUNNING || r.last_non_running_gseq >= sd.gseq || r.ctx_gen != W->ctx_registrations || r.pills_pending) continue;
+            VIOL("C13", "C13:event-lost", "message #%ld for module slot %d (batch size %zu, timeout %lu ns) was neither delivered nor discarded by a stop when the loop returned: batching lost it",
+                 sd.id, e, r.batch_size, (unsigned long)r.batch_timeout);
+        }
+    }
+}
+
+// =================================================================== C15
+void orc_c15_api(const ApiRec &r, const Frame &f, const std::string &snap0, const std::string &snap1) {
+    const std::string &n = r.name;
+    // innermost callback executing when the call was made (frames still holds the callers)
+    const Frame *cb = nullptr;
+    for (int i = (int)W->frames.size() - 1; i >= 0; i--) if (W->frames[i].is_cb) { cb = &W->frames[i]; break; }
+    bool is_ctx_call = n == "ctx_quit" || n == "ctx_tick" || n == "ctx_finalize" || n == "ctx_dereg" || n == "ctx_misc" || n == "ctx_reg" || n == "loop" || n == "dispatch";
+    if (cb && is_ctx_call && (W->slots[cb->slot].flags & M_MOD_DENY_CTX) && n != "ctx_reg") {
+        oracle_eval("C15.deny-ctx");
+        R->ctr.probe("deny_ctx_call_attempted");
+        int depth = 0;
+        for (auto &fr : W->frames) if (fr.is_cb) depth++;
+        if (depth > 1 || f.nested || W->c15_nested_cb_returned) R->ctr.probe("deny_ctx_call_after_nested_callback");
+        bool failed = r.rc < 0 || (n == "ctx_misc" && W->c15_misc_null);
+        if (!failed) {
+            char sig[96];
+            snprintf(sig, sizeof sig, "C15:deny-ctx-bypassed:%s%s", n.c_str(), W->c15_nested_cb_returned ? ":after-nested-callback" : "");
+            VIOL("C15", sig, "context call %s made from a callback of module slot %d (M_MOD_DENY_CTX) returned %d", n.c_str(), cb->slot, r.rc);
+        }
+        if (snap0 != snap1 && !snap1.empty()) VIOL("C15", "C15:denied-call-had-effect:ctx", "denied context call %s changed the observable state", n.c_str());
+        if (n == "ctx_quit" && !W->loops.empty() && W->loops.back().quit_requested && W->loops.back().quit_gseq >= f.gseq)
+            VIOL("C15", "C15:denied-call-had-effect:quit", "denied m_ctx_quit was recorded");
+    }
+    int actor = r.actor >= 0 ? r.actor : r.slot;
+    if (actor >= 0 && actor < (int)W->slots.size()) {
+        Slot &a = W->slots[actor];
+        if ((a.flags & M_MOD_DENY_PUB) && (n == "tell" || n == "pub" || n == "bcast" || n == "pill")) {
+            oracle_eval("C15.deny-pub");
+            if (r.rc >= 0) { char sig[64]; snprintf(sig, sizeof sig, "C15:deny-pub-bypassed:%s", n.c_str()); VIOL("C15", sig, "%s by module slot %d (M_MOD_DENY_PUB) returned %d", n.c_str(), actor, r.rc); }
+            if (snap0 != snap1 && !snap1.empty()) VIOL("C15", "C15:denied-call-had-effect:pub", "denied %s changed the observable state", n.c_str());
+        }
+        if ((a.flags & M_MOD_DENY_SUB) && (n == "sub" || n == "unsub")) {
+            oracle_eval("C15.deny-sub");
+            if (r.rc == 0) { char sig[64]; snprintf(sig, sizeof sig, "C15:deny-sub-bypassed:%s", n.c_str()); VIOL("C15", sig, "%s by module slot %d (M_MOD_DENY_SUB) returned 0", n.c_str(), actor); }
+            if (snap0 != snap1 && !snap1.empty()) VIOL("C15", "C15:denied-call-had-effect:sub", "denied %s changed the observable state", n.c_str());
+        }
+    }
+    if (n == "pub" && W->c15_reserved_topic) {
+        oracle_eval("C15.reserved-prefix");
+        if (r.rc >= 0) VIOL("C15", "C15:reserved-topic-published", "publishing on a LIBMODULE_ topic returned %d", r.rc);
+        if (snap0 != snap1 && !snap1.empty()) VIOL("C15", "C15:denied-call-had-effect:reserved", "refused publish on a reserved topic changed the observable state");
+    }
+    if (n == "dereg" && r.slot >= 0 && (W->slots[r.slot].flags & M_MOD_PERSIST) && W->c15_looping_at_entry && r.st_before != ST_ZOMBIE && r.st_before != ST_NONE) {
+        oracle_eval("C15.persist");
+        if (r.rc >= 0) VIOL("C15", "C15:persistent-module-deregistered", "m_mod_deregister of a persistent module while its context loops returned %d", r.rc);
+        if (r.st_after == ST_ZOMBIE) VIOL("C15", "C15:persistent-module-deregistered", "a persistent module became ZOMBIE by a direct call while its context loops");
+        if (snap0 != snap1 && !snap1.empty() && !f.nested) VIOL("C15", "C15:denied-call-had-effect:persist", "refused deregistration changed the observable state");
+    }
+    if (n == "reg" && r.slot >= 0) {
+        oracle_eval("C15.unique-names");
+        Slot &nw = W->slots[r.slot];
+        // the live module holding that name when the call was made
+        int holder = W->c15_name_holder;
+        if (holder >= 0) {
+            Slot &old = W->slots[holder];
+            if (old.flags & M_MOD_ALLOW_REPLACE) {
+                if (r.rc == 0 && old.st != ST_ZOMBIE) VIOL("C15", "C15:replaced-module-not-deregistered", "module slot %d replaced slot %d under name '%s' but the old one is %s", r.slot, holder, nw.name.c_str(), st_name(old.st));
+            } else if (!W->has_ctx || W->ctx_finalized) {
+            } else {
+                bool denied_ctx = cb && (W->slots[cb->slot].flags & M_MOD_DENY_CTX);   // refused earlier, for another reason
+                if (r.rc >= 0 && !f.nested) VIOL("C15", "C15:duplicate-name-accepted", "registering a second module named '%s' returned %d instead of -EEXIST", nw.name.c_str(), r.rc);
+                if (r.rc != -EEXIST && !f.nested && !denied_ctx) VIOL("C15", "C15:duplicate-name-wrong-error", "registering a second module named '%s' returned %d instead of -EEXIST", nw.name.c_str(), r.rc);
+                if (old.st == ST_ZOMBIE && !f.nested) VIOL("C15", "C15:non-replaceable-module-replaced", "module slot %d does not allow replacement but was deregistered by a registration of the same name", holder);
+            }
+        }
+    }
+}
+
+// delivery of a message whose send was refused
+void orc_c15_delivery(Delivery &d) {
+    for (auto &e : d.evts)
+        if (e.type == M_SRC_TYPE_PS && !e.system && e.send_id == -2)
+            VIOL("C15", "C15:refused-send-delivered", "module slot %d received a message whose send had been refused", d.slot);
+}
+
+// =================================================================== C16
+void orc_c16_delivery(Delivery &d) {
+    if (!d.in_unstash) return;
+    oracle_eval("C16.unstash-delivery");
+    if (W->c16_expect.empty()) VIOL("C16", "C16:unexpected-unstash-delivery", "nested handler invocation without an unstash in progress");
+    World::C16Expect &x = W->c16_expect.back();
+    if (x.slot != d.slot) return;
+    if (x.seen) VIOL("C16", "C16:unstash-two-invocations", "unstash of module slot %d invoked the handler more than once", d.slot);
+    x.seen = true;
+    if (d.evts.size() != x.want.size()) {
+        char sig[64];
+        snprintf(sig, sizeof sig, "C16:unstash-count:%s", d.evts.size() < x.want.size() ? "fewer" : "more");
+        VIOL("C16", sig, "unstash handed %zu event(s) to the handler of module slot %d, expected the %zu oldest stashed ones", d.evts.size(), d.slot, x.want.size());
+    }
+    for (size_t i = 0; i < d.evts.size(); i++) {
+        const EvtObs &e = d.evts[i];
+        const StashM &w = x.want[i];
+        if (e.raw != w.raw && (e.send_id != w.send_id || e.ud != w.ud || e.type != w.type))
+            VIOL("C16", "C16:unstash-order", "unstash handed over a different event than the %zu-th oldest stashed one (stash order not kept)", i);
+        if (e.type != w.type || e.data != w.data || e.ud != w.ud) VIOL("C16", "C16:unstash-content-changed", "a stashed event came back with different content");
+    }
+}
 void orc_c16_run_end() {}
-void orc_c17_delivery(Delivery &d) { (void)d; }
-void orc_c18_api(const ApiRec &r, const Frame &f, const std::string &snap0, const std::string &snap1) { (void)r; (void)f; (void)snap0; (void)snap1; }
-void orc_c19_delivery(Delivery &d) { (void)d; }
-void orc_c19_loop_end(LoopRun &lr) { (void)lr; }
+
+// =================================================================== C17
+void orc_c17_delivery(Delivery &d) {
+    Slot &s = W->slots[d.slot];
+    oracle_eval("C17.handler-selection");
+    int want = s.hstack.empty() ? 0 : s.hstack.back();
+    if (d.handler != want)
+        VIOL("C17", d.handler == 0 ? "C17:original-handler-instead-of-top" : want == 0 ? "C17:stale-handler-after-reset" : "C17:wrong-handler",
+             "invocation of module slot %d went to handler %d, the top of its handler stack (depth %zu) is %d", d.slot, d.handler, s.hstack.size(), want);
+}
+
+// =================================================================== C18
+static bool rate_limited(const std::string &n) {
+    static const char *names[] = {"start", "pause", "resume", "stop", "bind", "sub", "unsub", "tell", "pub", "bcast", "pill", "become", "unbecome", "stash", "unstash",
+                                  "batch_size", "src_fd", "unsrc_fd", "src_tmr", "unsrc_tmr", "src_sgn", "unsrc_sgn", "src_path", "unsrc_path", "src_pid", "unsrc_pid",
+                                  "src_task", "src_thresh", "unsrc_thresh"};
+    for (auto x : names) if (n == x) return true;
+    return false;
+}
+void orc_c18_api(const ApiRec &r, const Frame &f, const std::string &snap0, const std::string &snap1) {
+    if (!rate_limited(r.name)) return;
+    int actor = r.actor >= 0 ? r.actor : r.slot;
+    if (actor < 0) return;
+    Slot &s = W->slots[actor];
+    uint64_t now = R->now;
+    if (r.rc == -EAGAIN) {
+        oracle_eval("C18.refusal");
+        if (s.tb_rate == 0 && !W->c18_tb_was_set_in_call) VIOL("C18", "C18:eagain-without-bucket", "%s by module slot %d was refused with -EAGAIN although it has no token bucket (never set, rate 0, or reset by a stop)", r.name.c_str(), actor);
+        if (f.nested) VIOL("C18", "C18:refused-call-ran-callback", "%s refused with -EAGAIN still invoked a callback", r.name.c_str());
+        if (snap0 != snap1 && !snap1.empty()) VIOL("C18", "C18:refused-call-had-effect", "%s refused with -EAGAIN changed the observable state: %s -> %s", r.name.c_str(), snap0.c_str(), snap1.c_str());
+        // bounded recovery: armed here, evaluated at the module's next rate limited call
+        if (s.tb_rate && s.tb_burst >= 1 && s.st == ST_RUNNING && W->ctx_looping && !s.tb_refusal_armed) { s.tb_refusal_armed = true; s.tb_refused_at = now; s.tb_refused_polls = W->real_polls; s.tb_polls_after_due = 0; }
+        else if (s.tb_refusal_armed && s.tb_rate) {
+            uint64_t period = 1000000000ULL / s.tb_rate;
+            bool stayed = s.st == ST_RUNNING && s.last_non_running_gseq < s.tb_refused_gseq && W->ctx_looping;
+            // the loop must have polled after a refill tick was due (tokens are credited when the loop processes the timer)
+            // (5 polls: the kernel may pass a ready descriptor over in up to 3 consecutive polls)
+            if (stayed && s.tb_polls_after_due >= 5 && s.tb_success_since_refusal == 0)
+                VIOL("C18", "C18:no-refill", "module slot %d (rate %u/s) is still refused %lu ns and %lu polls after it ran out of tokens, without any successful call in between", actor, s.tb_rate,
+                     (unsigned long)(now - s.tb_refused_at), (unsigned long)(W->real_polls - s.tb_refused_polls));
+        }
+        if (!s.tb_refused_gseq || !s.tb_refusal_armed) s.tb_refused_gseq = R->gseq;
+        return;
+    }
+    s.tb_refusal_armed = false;   // whatever else the call returned, it got (and used up) a token
+    if (r.rc != 0 || s.tb_rate == 0) return;
+    // a successful token consuming call: every window of successes is bounded by burst + refills + 1
+    oracle_eval("C18.rate-bound");
+    if (s.tb_refusal_armed) s.tb_success_since_refusal++;
+    s.tb_refusal_armed = false;
+    s.tb_success_since_refusal = 0;
+    s.tb_success_times.push_back(now);
+    uint64_t period = 1000000000ULL / s.tb_rate;
+    size_t m = s.tb_success_times.size();
+    for (size_t i = 0; i < m; i++) {
+        uint64_t dt = now - s.tb_success_times[i];
+        // burst + whole refill periods in the window + 1 (phase of the discrete ticks) + 1 (one expiry that occurred before the
+        // window may be credited inside it: refills are credited when the loop processes the timer, not when it expires)
+        uint64_t allowed = s.tb_burst + dt / period + 2;
+        uint64_t cnt = m - i;
+        if (cnt > allowed)
+            VIOL("C18", "C18:rate-exceeded", "module slot %d (rate %u/s, burst %lu): %lu token consuming calls succeeded within %lu ns, at most %lu are allowed", actor, s.tb_rate, (unsigned long)s.tb_burst,
+                 (unsigned long)cnt, (unsigned long)dt, (unsigned long)allowed);
+    }
+}
+
+// =================================================================== C19
+static const char *SYS_T[] = {M_PS_CTX_STARTED, M_PS_CTX_STOPPED, M_PS_CTX_TICK, M_PS_MOD_STARTED, M_PS_MOD_STOPPED};
+
+static bool subscribed_to(Slot &r, const char *topic, uint64_t before_gseq) {
+    for (auto &kv : r.subs) {
+        bool m = kv.first == topic || (kv.second.re_ok && regexec(&kv.second.re, topic, 0, nullptr, 0) == 0);
+        if (!m) continue;
+        for (auto &h : r.sub_history) if (h.second == kv.second.ud && h.gseq < before_gseq) return true;
+    }
+    return false;
+}
+
+// called on every observed state edge
+void orc_c19_edge(int slot, int from, int to) {
+    Slot &x = W->slots[slot];
+    if (to == ST_RUNNING) x.occ_started.push_back(R->gseq);
+    if (to == ST_PAUSED || to == ST_STOPPED || to == ST_ZOMBIE) x.occ_stopped.push_back(R->gseq);
+    if (!on("C19")) return;
+    // required occurrences: actual entries into / exits from RUNNING
+    const char *topic = nullptr;
+    if (to == ST_RUNNING) topic = M_PS_MOD_STARTED;
+    else if (from == ST_RUNNING) topic = M_PS_MOD_STOPPED;
+    if (!topic) return;
+    // the call (or loop phase) that causes it started with the outermost frame
+    uint64_t start = W->frames.empty() ? R->gseq : W->frames.front().gseq;
+    for (auto &r : W->slots) {
+        if (r.idx == slot || r.ctx_gen != x.ctx_gen) continue;
+        if (r.st != ST_RUNNING && r.st != ST_PAUSED) continue;
+        if (r.st_gseq >= start) continue;                       // not in that state during the whole interval
+        if (!subscribed_to(r, topic, start)) continue;          // subscribed during the whole interval
+        W->c19_obls.push_back(World::C19Obl{r.idx, topic, slot, R->gseq, false});
+    }
+}
+
+void orc_c19_loop_edge(bool started) {
+    if (!on("C19")) return;
+    const char *topic = started ? M_PS_CTX_STARTED : M_PS_CTX_STOPPED;
+    // started: the whole interval begins with the loop/dispatch call; stopped: judged from the last poll on (the stop itself is not observable)
+    uint64_t start = started ? (W->frames.empty() ? R->gseq : W->frames.front().gseq) : W->last_real_poll_gseq;
+    for (auto &r : W->slots) {
+        if (r.ctx_gen != W->ctx_registrations) continue;
+        if (r.st != ST_RUNNING && r.st != ST_PAUSED) continue;
+        if (r.st_gseq >= start) continue;
+        if (!subscribed_to(r, topic, start)) continue;
+        W->c19_obls.push_back(World::C19Obl{r.idx, topic, -1, started ? R->gseq : start, false});
+    }
+}
+
+void orc_c19_delivery(Delivery &d) {
+    Slot &r = W->slots[d.slot];
+    for (auto &e : d.evts) {
+        if (e.type != M_SRC_TYPE_PS) continue;
+        bool sys_topic = e.topic && !strncmp(e.topic, "LIBMODULE_", 10);
+        if (!e.system) {
+            if (sys_topic) VIOL("C19", "C19:system-topic-not-flagged", "a message on topic %s arrived without the system flag", e.topic);
+            continue;
+        }
+        oracle_eval("C19.notification-maps-to-occurrence");
+        if (e.data) VIOL("C19", "C19:system-message-with-payload", "a system notification carries a payload");
+        int ti = -1;
+        for (int i = 0; i < 5; i++) if (e.topic && !strcmp(e.topic, SYS_T[i])) ti = i;
+        if (ti < 0) { char sig[96]; snprintf(sig, sizeof sig, "C19:unknown-system-topic"); VIOL("C19", sig, "system notification on unexpected topic '%s' handed to module slot %d", e.topic ? e.topic : "(null)", d.slot); }
+        if (d.in_unstash) continue;
+        char key[96];
+        snprintf(key, sizeof key, "%d|%d", ti, e.sender_slot);
+        int got = ++r.sys_received[key];
+        if (ti == 2) {
+            // ticks: no more often than the configured period
+            if (e.sender) VIOL("C19", "C19:tick-with-sender", "a tick notification names a sender");
+            if (W->ctx_tick_ns == 0 && W->ctx_tick_set_gseq < d.gseq && r.tick_times.empty() && !W->c19_tick_ever) VIOL("C19", "C19:tick-without-tick", "tick notification although no tick is configured");
+            r.tick_times.push_back(R->now);
+            uint64_t period = W->c19_min_tick_ns ? W->c19_min_tick_ns : 1;
+            size_t m = r.tick_times.size();
+            for (size_t i = 0; i < m; i++) {
+                uint64_t dt = R->now - r.tick_times[i];
+                if (m - i > dt / period + 1 + 1)   // (+1: the expiry being delivered, +1: one expiry may wait in the mailbox while the next fires)
+                    VIOL("C19", "C19:ticks-too-frequent", "module slot %d received %zu tick notifications within %lu ns, the configured period is %lu ns", d.slot, m - i, (unsigned long)dt, (unsigned long)period);
+            }
+            continue;
+        }
+        // allowed occurrences since the recipient exists
+        size_t allowed = 0;
+        if (ti == 0 || ti == 1) {
+            if (e.sender) VIOL("C19", "C19:loop-notification-with-sender", "a loop started/stopped notification names a sender");
+            for (auto &l : W->loops) { (void)l; allowed++; }
+        } else {
+            if (e.sender_slot < 0) VIOL("C19", "C19:module-notification-without-sender", "a module %s notification does not name a known module as sender", ti == 3 ? "started" : "stopped");
+            if (e.sender_slot == d.slot && false) {}
+            Slot &x = W->slots[e.sender_slot];
+            auto &occ = ti == 3 ? x.occ_started : x.occ_stopped;
+            for (uint64_t g : occ) if (g >= r.reg_gseq) allowed++;
+        }
+        if ((size_t)got > allowed) {
+            char sig[96];
+            snprintf(sig, sizeof sig, "C19:notification-without-occurrence:%s", SYS_T[ti] + 10);
+            VIOL("C19", sig, "module slot %d received its %d-th %s notification (sender slot %d) but only %zu such occurrence(s) happened since it was registered", d.slot, got, SYS_T[ti], e.sender_slot, allowed);
+        }
+        // discharge an obligation
+        for (auto &o : W->c19_obls)
+            if (!o.done && o.recipient == d.slot && o.topic == e.topic && o.sender == e.sender_slot) { o.done = true; break; }
+    }
+}
+
+void orc_c19_loop_end(LoopRun &lr) {
+    if (lr.poll_failure) return;
+    oracle_eval("C19.occurrence-notified");
+    for (auto &o : W->c19_obls) {
+        if (o.done) continue;
+        Slot &r = W->slots[o.recipient];
+        if (o.gseq > lr.end_gseq) continue;
+        // ordinary message rules: stayed RUNNING, not batching, mailbox not (possibly) full, subscription still there
+        if (r.st != ST_RUNNING || r.last_non_running_gseq >= o.gseq || r.batch_size || r.batch_timeout || r.pills_pending || r.ctx_gen != W->ctx_registrations) { o.done = true; continue; }
+        if (!subscribed_to(r, o.topic.c_str(), o.gseq)) { o.done = true; continue; }
+        char sig[96];
+        snprintf(sig, sizeof sig, "C19:occurrence-not-notified:%s", o.topic.c_str() + 10);
+        VIOL("C19", sig, "module slot %d, subscribed and RUNNING throughout, never received the %s notification for the occurrence at event %lu (subject slot %d) by the end of loop run %lu",
+             o.recipient, o.topic.c_str(), (unsigned long)o.gseq, o.sender, (unsigned long)lr.id);
+    }
+}
 void orc_c19_run_end() {}
